@@ -890,6 +890,8 @@ class Fn:
             return bind(p, comp, tree)
         if isinstance(target, ast.Name):
             x = target.id
+            if ty in (KWARGS, INSTANCE, SELF) and not isinstance(value, ast.Call):
+                bad(s, f'second name for a mutable object ({ast.unparse(value)}): later mutations through one name would have to show through the other')
             env2 = dict(env); env2[x] = ty
             env2['#view:' + x] = self.viewness(value, env)
             if kind == 'comp':
